@@ -194,11 +194,20 @@ func (st *sstate) property(key string, holder *Obj) (string, bool, error) {
 	return "", false, nil
 }
 
+// ErrTooDeep is returned when a serialisation nests deeper than MaxDepth: only callbacks that create a fresh object
+// on every level can do that, i.e. the serialisation does not terminate.  Such values are outside the model's domain.
+var ErrTooDeep = &Throw{Ctor: "<nesting beyond the model's depth bound: serialisation diverges>"}
+
+const MaxDepth = 96
+
 func (st *sstate) push(o *Obj) error {
 	for _, x := range st.stack {
 		if x == o {
 			return typeError()
 		}
+	}
+	if len(st.stack) >= MaxDepth {
+		return ErrTooDeep
 	}
 	st.stack = append(st.stack, o)
 	return nil
